@@ -1,6 +1,6 @@
 (* C05: pinned statements.  Each is closed by `exact <lemma>`; proofs are in DecodeProofs.v / WfProofs.v. *)
 From Coq Require Import List NArith Bool.
-From KV.bc Require Import Instr GenOps Decode AbsVM Wf DecodeProofs WfProofs.
+From KV.bc Require Import Instr GenOps Decode AbsVM Wf Wf5 DecodeProofs WfProofs Wf5Proofs.
 Import ListNotations.
 Open Scope N_scope.
 
@@ -57,6 +57,15 @@ Theorem wf_chunk_reach_instruction_start : forall c nconsts,
                      fetch c pc = DOk (it_i it) (it_k it).
 Proof. exact wf_reach_start. Qed.
 Print Assumptions wf_chunk_reach_instruction_start.
+
+(* Clause 5: on a chunk accepted by wf_chunk AND depths_ok, no state of the abstract VM with builder /
+   handler depth counters faults: SequencePush/PushN/ToList/ToTuple always find a sequence builder,
+   StringPush/StringFinish a string builder (no MissingSequenceBuilder / MissingStringBuilder), and no
+   builder is left behind when a frame returns. *)
+Theorem depths_ok_sound : forall c nconsts,
+    wf_chunk c nconsts = true -> depths_ok c = true -> forall s, reach5 c s -> ~ fault5 c s.
+Proof. exact wf5_sound. Qed.
+Print Assumptions depths_ok_sound.
 
 (* ---- the operand-role table of AbsVM agrees with the regenerated layouts ------------------------------ *)
 
@@ -182,3 +191,40 @@ Example register_out_of_frame_rejected : wf_chunk [OP_NewFrame; 1; OP_Set0; 1; O
 Proof. vm_compute. reflexivity. Qed.
 Example register_in_frame_accepted : wf_chunk [OP_NewFrame; 2; OP_Set0; 1; OP_Return; 0] 0 = true.
 Proof. vm_compute. reflexivity. Qed.
+
+(* ---- clause 5: non-vacuity ------------------------------------------------------------------------------- *)
+
+(* real chunk of `x = [1, 2]; try throw 'a{x}' catch e e`: list builder, string builder, try *)
+Definition real_chunk5 : bytes :=
+  [0;7;19;2;6;3;7;4;2;21;3;2;22;1;84;4;20;0;24;2;11;6;1;25;6;0;25;1;0;26;5;64;5;85;0;55;8;0;85;0;1;2;4;1;3;2;62;3].
+Example real_chunk5_ok : wf_chunk real_chunk5 3 = true /\ depths_ok real_chunk5 = true.
+Proof. split; vm_compute; reflexivity. Qed.
+
+(* C05d witness, real chunk of `x = 0; loop y = [1, (break 2)]`: well formed for clauses 1-4, rejected by
+   clause 5, and the abstract VM really returns with a sequence builder left behind *)
+Definition c05d_chunk : bytes :=
+  [0;6;5;1;19;2;6;4;7;3;2;55;11;0;21;4;2;22;2;1;3;2;56;21;0;62;3].
+Example c05d_rejected : wf_chunk c05d_chunk 2 = true /\ depths_ok c05d_chunk = false.
+Proof. split; vm_compute; reflexivity. Qed.
+Example c05d_leaks_refuted : exists s, reach5 c05d_chunk s /\ fault5 c05d_chunk s.
+Proof.
+  exists (DS 25 6 (1, 0, 0)). split.
+  - assert (R1 : reach5 c05d_chunk (DS 2 6 d0)).
+    { apply (reach5_step c05d_chunk (DS 0 0 d0)); [apply reach5_init |].
+      exact (step5_next c05d_chunk 0 0 d0 (Instr 0 [6]) 2 eq_refl eq_refl). }
+    assert (R2 : reach5 c05d_chunk (DS 4 6 d0)).
+    { apply (reach5_step c05d_chunk (DS 2 6 d0)); [exact R1 |].
+      exact (step5_next c05d_chunk 2 6 d0 (Instr 5 [1]) 2 eq_refl eq_refl). }
+    assert (R3 : reach5 c05d_chunk (DS 6 6 (1, 0, 0))).
+    { apply (reach5_step c05d_chunk (DS 4 6 d0)); [exact R2 |].
+      exact (step5_next c05d_chunk 4 6 d0 (Instr 19 [2]) 2 eq_refl eq_refl). }
+    assert (R4 : reach5 c05d_chunk (DS 8 6 (1, 0, 0))).
+    { apply (reach5_step c05d_chunk (DS 6 6 (1, 0, 0))); [exact R3 |].
+      exact (step5_next c05d_chunk 6 6 (1, 0, 0) (Instr 6 [4]) 2 eq_refl eq_refl). }
+    assert (R5 : reach5 c05d_chunk (DS 11 6 (1, 0, 0))).
+    { apply (reach5_step c05d_chunk (DS 8 6 (1, 0, 0))); [exact R4 |].
+      exact (step5_next c05d_chunk 8 6 (1, 0, 0) (Instr 7 [3; 2]) 3 eq_refl eq_refl). }
+    apply (reach5_step c05d_chunk (DS 11 6 (1, 0, 0))); [exact R5 |].
+    exact (step5_jump c05d_chunk 11 6 (1, 0, 0) (Instr 55 [11]) 3 [25] 25 eq_refl eq_refl (or_introl eq_refl)).
+  - vm_compute. right. right. split; [reflexivity | left; discriminate].
+Qed.
